@@ -31,6 +31,8 @@ def expected_semantic(am):
     def show(xs):
         xs = sorted(xs)
         return ",".join(str(x) for x in xs) if xs else "-"
+    if am.get("poison"):
+        return dict(err="err 1")
     states = []
     for s in am["states"]:
         v = "-" if s["value"] is None else str(s["value"])
@@ -55,14 +57,20 @@ def one_case(seed, tag, i, allow_any=True):
     k = rng.randint(3, 6)
     rends = []
     tries = 0
+    am["poison"] = rng.choice(["internal", "unbound"]) if rng.random() < 0.05 else None
     while len(rends) < k and tries < 40:
         tries += 1
         p = G.render(am, rng, allow_any=allow_any)
         if p is None:
             continue
+        if am["poison"]:
+            p = G.poison(p, am, rng, am["poison"])
         rends.append(dict(prog=p, tags=p["tags"], src=G.python_source(am, p)))
     guards = sorted({g for t in am["trans"] for g in t["cond"] + t["unless"]})
-    steps = R.gen_scenario(rng, am["nev"], guards, list(range(1, am["ncb"] + 1)))
+    # a raising callback must not have siblings whose order is style-dependent (order inside one group is
+    # unconstrained, C02): only guards and validators raise
+    raisable = guards + sorted({v for t in am["trans"] for v in t["validators"]})
+    steps = R.gen_scenario(rng, am["nev"], guards, raisable)
     return am, rends, steps
 
 
